@@ -90,6 +90,19 @@ def selftest():
                 ok = False
                 print('MANIFEST.json does not validate:', r.stderr[-400:])
     json.load(open(os.path.join(runner.VERIF, 'known_findings.json')))
+    vt = '/opt/veriftools/pyvenv/bin/python'
+    esch = '/root/.vp/EVIDENCE.schema.json'
+    if os.path.exists(vt) and os.path.exists(esch):
+        for p in available():
+            ep = os.path.join(runner.EVIDENCE_DIR, p + '.json')
+            if not os.path.exists(ep):
+                continue
+            r = subprocess.run([vt, '-c', 'import json,jsonschema,sys;'
+                                'jsonschema.validate(json.load(open(sys.argv[1])),json.load(open(sys.argv[2])))',
+                                ep, esch], capture_output=True, text=True)
+            if r.returncode:
+                ok = False
+                print('evidence %s does not validate: %s' % (ep, r.stderr.strip().splitlines()[-1][:200] if r.stderr else ''))
     print('selftest', 'ok' if ok else 'FAILED', '- checks available:', ' '.join(available()))
     return 0 if ok else 2
 
